@@ -1,10 +1,17 @@
 #!/bin/sh
 # Build the framework from files on disk only (offline).
-set -e
 cd "$(dirname "$0")"
 export CARGO_NET_OFFLINE=true
 mkdir -p .build/tmp evidence replays
-(cd harness && cargo build --release --offline)
-cargo build --offline --manifest-path /repo/Cargo.toml -p rsjsonnet --target-dir /verif/.build/cli
-(cd lean && lake build)
+(cd harness && cargo build --release --offline) || echo "setup: harness build failed"
+cargo build --offline --manifest-path /repo/Cargo.toml -p rsjsonnet --target-dir /verif/.build/cli || echo "setup: cli build failed"
+# Lean: property modules of the claimed checks and their model drivers, one target at a
+# time so that one broken module cannot block the rest (each check rebuilds what it needs).
+props=$(python3 -c "import json;print(' '.join(c['property_id'] for c in json.load(open('MANIFEST.json'))['checks']))")
+cd lean
+for p in $props; do lake build RsjProps.$p || echo "setup: RsjProps.$p failed"; done
+for d in $(ls Drv | sed 's/\.lean$//'); do
+  op=$(python3 -c "import sys;sys.path.insert(0,'..');import vlib;print({v:k for k,v in vlib.OP_MODULE.items()}.get('$d',''))")
+  [ -n "$op" ] && (lake build drv_$op || echo "setup: drv_$op failed")
+done
 echo setup-done
